@@ -48,7 +48,11 @@ func c01Program(g *prog.Gen, idx int) []*prog.Op {
 			ops = append(ops, &prog.Op{Kind: "deleteObject", Caller: caller, B: b, K: k})
 		}
 		k2 := keys[g.R.Intn(len(keys))]
-		ops = append(ops, &prog.Op{Kind: []string{"getObject", "headObject", "getObjectTagging"}[g.R.Intn(3)], Caller: caller, B: b, K: k})
+		follow := []string{"getObject", "headObject", "getObjectTagging"}[g.R.Intn(3)]
+		if ops[len(ops)-1].Kind == "copyObject" && g.R.Chance(50) {
+			follow = "getObjectTagging" // the tags travel with a copy (or are replaced): read them back
+		}
+		ops = append(ops, &prog.Op{Kind: follow, Caller: caller, B: b, K: k})
 		ops = append(ops, &prog.Op{Kind: []string{"getObject", "headObject"}[g.R.Intn(2)], Caller: caller, B: b, K: k2})
 	}
 	for _, k := range keys {
